@@ -49,6 +49,18 @@ class Driver:
         self.r = ctx.rng("c03")
         self.tmpdir = tempfile.mkdtemp(prefix="mf-c03-")
         self.n = 0
+        if ctx.shard % 2 == 1:
+            # what a process may well have done before it prints anything: validated and created objects for particular MapServer
+            # versions (the printer's reading of the schemas must not depend on it)
+            import mappyfile
+            for v in vocab.version_bounds()[:: max(1, len(vocab.version_bounds()) // 4)] + [4.0, 8.4]:
+                try:
+                    mappyfile.validate(mappyfile.loads('MAP NAME "x" END'), version=v)
+                    for t in vocab.object_types():
+                        mappyfile.create(t, version=v)
+                    ctx.res.count("versioned_calls_before_first_print")
+                except Exception as ex:
+                    ctx.res.count("versioned_warmup_raised:" + type(ex).__name__)
 
     def close(self):
         import shutil
